@@ -82,9 +82,10 @@ def main():
         if a.keep:
             dst = V / "seeded" / a.keep
             dst.mkdir(parents=True, exist_ok=True)
-            shutil.copy(seed / "patch.diff", dst / "patch.diff")
-            if demo:
-                shutil.copy(demo, dst / demo.name)
+            if dst.resolve() != seed.resolve():
+                shutil.copy(seed / "patch.diff", dst / "patch.diff")
+                if demo:
+                    shutil.copy(demo, dst / demo.name)
             meta["confirmed"] = {k: v for k, v in res.items() if k != "check"}
             meta["check_result"] = verdicts
             meta["ran"] = [
